@@ -6,8 +6,21 @@ bounded everywhere and never counted as proved."""
 import argparse
 import json
 import random
+import signal
 import sys
 import traceback
+
+# one contract instance that has produced no result after this many seconds counts as a failure
+# ("did not terminate"): generous, instances take milliseconds
+EVAL_TIMEOUT = 120
+
+
+class _NoResult(BaseException):
+    pass
+
+
+def _on_alarm(signum, frame):
+    raise _NoResult()
 
 
 class Run:
@@ -23,6 +36,7 @@ class Run:
         self.evaluations = 0
         self.nontrivial = set()
         self.failures = []
+        self.timed_out = 0
         self.samples = []
         self.contracts = set()
         self.thorough = self.args.tier == "thorough"
@@ -36,7 +50,16 @@ class Run:
         if nontrivial:
             self.nontrivial.add((contract, repr(inp)[:200]))
         try:
-            f = fn()
+            signal.signal(signal.SIGALRM, _on_alarm)
+            limit = EVAL_TIMEOUT if not self.timed_out else 10      # after a first timeout: do not wait long again
+            signal.alarm(limit)
+            try:
+                f = fn()
+            finally:
+                signal.alarm(0)
+        except _NoResult:
+            self.timed_out += 1
+            f = f"no result within {limit} s (does not terminate)"
         except Exception as e:
             f = f"raised {type(e).__name__}: {e}"
             tb = traceback.format_exc().strip().split("\n")
